@@ -67,7 +67,7 @@ func runC02(outer *testing.T) func(t rapid.TB, h pktsim.History, rec *vx.Case) {
 						if cb := committedIn(w, st, "recv", "ack", "timeout"); len(cb) > 0 {
 							vx.Violatef(t, rec, id, "ooo-recv-reaches-app", "step %d: receive of seq %d while seq %d is still unreceived committed %d callback(s) (first: %s seq %d); %s", i, s, next, len(cb), cb[0].Kind, cb[0].Seq, pktsim.Describe(st))
 						}
-						if d := sim.Diff(st.Before, st.After); len(d) > 0 {
+						if d := stateDiff(st.Before, st.After); len(d) > 0 {
 							vx.Violatef(t, rec, id, "ooo-recv-changes-state", "step %d: receive of seq %d while seq %d is still unreceived changed state %v; %s", i, s, next, d, pktsim.Describe(st))
 						}
 					case s < next:
@@ -89,7 +89,7 @@ func runC02(outer *testing.T) func(t rapid.TB, h pktsim.History, rec *vx.Case) {
 						if cb := committedIn(w, st, "recv", "ack", "timeout"); len(cb) > 0 {
 							vx.Violatef(t, rec, id, "ooo-ack-reaches-app", "step %d: acknowledgement of seq %d while seq %d is still unacknowledged committed %d callback(s) (first: %s seq %d); %s", i, s, next, len(cb), cb[0].Kind, cb[0].Seq, pktsim.Describe(st))
 						}
-						if d := sim.Diff(st.Before, st.After); len(d) > 0 {
+						if d := stateDiff(st.Before, st.After); len(d) > 0 {
 							vx.Violatef(t, rec, id, "ooo-ack-changes-state", "step %d: acknowledgement of seq %d while seq %d is still unacknowledged changed state %v; %s", i, s, next, d, pktsim.Describe(st))
 						}
 					case s == next:
